@@ -23,10 +23,12 @@
 package main
 
 import (
+	"context"
 	"fmt"
 	"net/http"
 	"net/http/httptest"
 	"regexp"
+	"runtime"
 	"strconv"
 	"sync"
 	"sync/atomic"
@@ -95,6 +97,22 @@ func (m *monitor) report(format string, a ...any) {
 	m.mu.Unlock()
 }
 
+// how a holder ends: 0 returns; 1 panics with a string; 2 (handlers) / 4 (workers) panics with a
+// sentinel error value; 3 (workers, tasks) runtime.Goexit(); 5 panic(nil) (a *runtime.PanicNilError)
+func endHolder(code int64, sentinel error) {
+	switch code {
+	case 1:
+		panic("holder panic")
+	case 2, 4:
+		panic(sentinel)
+	case 3:
+		runtime.Goexit()
+	case 5:
+		var v any
+		panic(v)
+	}
+}
+
 func spin(k int) {
 	for s := 0; s < k; s++ {
 		if s%2 == 0 {
@@ -128,8 +146,13 @@ func runLim(c Case, ctl *sched.Ctl, mon *monitor, wg *sync.WaitGroup) {
 		}
 		ctl.Log(tid, "fe", i)
 		atomic.AddInt32(&inside[k], -1)
-		if r.Header.Get("X-Panic") == "1" {
+		switch r.Header.Get("X-Panic") {
+		case "1":
 			panic("handler panic")
+		case "2":
+			panic(http.ErrAbortHandler)
+		case "3":
+			endHolder(5, nil)
 		}
 		w.WriteHeader(http.StatusOK)
 	})
@@ -202,15 +225,17 @@ func runLim(c Case, ctl *sched.Ctl, mon *monitor, wg *sync.WaitGroup) {
 					d := time.Hour
 					if op[1] == 1 {
 						d = 0
+					} else if op[1] == 2 {
+						d = -time.Second
 					}
 					if c.Free {
 						d = time.Duration(50+20*tid) * time.Microsecond
 					}
-					if d == 0 {
+					if d <= 0 {
 						ctl.Busy(1)
 					}
 					err := tl.Borrow(d)
-					if d == 0 {
+					if d <= 0 {
 						ctl.Busy(-1)
 					}
 					if err == nil {
@@ -268,7 +293,10 @@ func runTR(c Case, ctl *sched.Ctl, mon *monitor, wg *sync.WaitGroup) {
 			defer wg.Done()
 			for i, op := range script {
 				i := i
-				panics := op[1] == 1
+				how := op[1]
+				if how == 2 {
+					how = 4
+				}
 				task := func() {
 					id := nthreads + int(atomic.AddInt32(&counter, 1)) - 1
 					if v := atomic.AddInt32(&running[k], 1); int(v) > caps[k] {
@@ -282,9 +310,7 @@ func runTR(c Case, ctl *sched.Ctl, mon *monitor, wg *sync.WaitGroup) {
 					ctl.Log(id, "fe", 0, int64(k))
 					atomic.AddInt32(&running[k], -1)
 					ctl.Done(id)
-					if panics {
-						panic("task panic")
-					}
+					endHolder(how, threading.ErrTaskRunnerBusy)
 				}
 				ctl.Gate(tid, "call", i)
 				ctl.SetOp(tid, i)
@@ -444,7 +470,7 @@ func effWorkers(c Case) int {
 	switch c.Obj {
 	case "mrdef", "fxdef":
 		return 16
-	case "finish", "finishvoid", "fxu":
+	case "finish", "finishvoid", "fxu", "fxuw", "fxwu":
 		return len(c.Items)
 	}
 	if c.N < 1 {
@@ -469,8 +495,8 @@ func runWP(c Case, ctl *sched.Ctl, mon *monitor, wg *sync.WaitGroup) {
 		ctl.Log(id, "fe", 0)
 		atomic.AddInt32(&running, -1)
 		ctl.Done(id)
-		if c.Items[i] == 1 {
-			panic("user function panic")
+		if c.Items[i] != 2 {
+			endHolder(c.Items[i], mr.ErrCancelWithNil)
 		}
 	}
 	gen := func(source chan<- int) {
@@ -515,6 +541,16 @@ func runWP(c Case, ctl *sched.Ctl, mon *monitor, wg *sync.WaitGroup) {
 				mr.ForEach(gen, func(item int) { fn(item) }, mr.WithWorkers(c.N))
 			case "mrdef":
 				mr.ForEach(gen, func(item int) { fn(item) })
+			case "mr2w": // the last WithWorkers wins
+				mr.ForEach(gen, func(item int) { fn(item) }, mr.WithWorkers(c.N+3), mr.WithWorkers(c.N))
+			case "mrctx": // a live context of the caller's next to the worker count
+				ctx, stop := context.WithCancel(context.Background())
+				if _, err := mr.MapReduce(gen, mapper, reducer, mr.WithContext(ctx), mr.WithWorkers(c.N)); err == errStop {
+					r = 4
+				} else if err != nil {
+					r = -1
+				}
+				stop()
 			case "mrmr":
 				if _, err := mr.MapReduce(gen, mapper, reducer, mr.WithWorkers(c.N)); err == errStop {
 					r = 4
@@ -571,6 +607,10 @@ func runWP(c Case, ctl *sched.Ctl, mon *monitor, wg *sync.WaitGroup) {
 				fx.From(fxgen).Walk(func(item any, pipe chan<- any) { fn(item.(int)) }).Done()
 			case "fxu":
 				fx.From(fxgen).Walk(func(item any, pipe chan<- any) { fn(item.(int)); pipe <- item }, fx.UnlimitedWorkers()).Done()
+			case "fxuw": // UnlimitedWorkers is not undone by a worker count, in either order
+				fx.From(fxgen).Walk(func(item any, pipe chan<- any) { fn(item.(int)) }, fx.WithWorkers(c.N), fx.UnlimitedWorkers()).Done()
+			case "fxwu":
+				fx.From(fxgen).Walk(func(item any, pipe chan<- any) { fn(item.(int)) }, fx.UnlimitedWorkers(), fx.WithWorkers(c.N)).Done()
 			case "fxmap":
 				fx.From(fxgen).Map(func(item any) any { fn(item.(int)); return item }, fx.WithWorkers(c.N)).Done()
 			case "fxfilter":
@@ -600,8 +640,8 @@ func runWG(c Case, ctl *sched.Ctl, mon *monitor, wg *sync.WaitGroup) {
 		ctl.Log(id, "fe", 0)
 		atomic.AddInt32(&running, -1)
 		ctl.Done(id)
-		if k < len(c.Items) && c.Items[k] == 1 {
-			panic("job panic")
+		if k < len(c.Items) {
+			endHolder(c.Items[k], threading.ErrTaskRunnerBusy)
 		}
 	}
 	wg.Add(1)
@@ -695,6 +735,16 @@ func runMrFx(c Case, mon *monitor) {
 		}
 		w.Write(item)
 	}, reducer, mr.WithWorkers(c.N))
+	// the caller's context dies half way
+	ctx, stop := context.WithCancel(context.Background())
+	_, _ = mr.MapReduce(gen, func(item int, w mr.Writer[int], cancel func(error)) {
+		work("mr.MapReduce(ctx)", item)
+		if item == items/2 {
+			stop()
+		}
+		w.Write(item)
+	}, reducer, mr.WithContext(ctx), mr.WithWorkers(c.N))
+	stop()
 	_ = mr.MapReduceVoid(gen, func(item int, w mr.Writer[int], cancel func(error)) {
 		work("mr.MapReduceVoid", item)
 		w.Write(item)
